@@ -29,14 +29,17 @@ WITNESS = {"k": "Int", "o": {"default": 1}}
 def catalogue():
     c = collections.OrderedDict()
     c["str-norm"] = ({"k": "Str", "o": {"transform_strip": True, "transform_case": "lower", "max_len": 5, "default": "dflt"}},
-                     ["ab", " CD "], [5, "toolong", ["ab"]])
+                     ["ab", " CD ", ""], [5, "toolong", ["ab"]])
     c["str-regex-req"] = ({"k": "Str", "o": {"regex": "^a.c$", "required": True, "default": "abc"}}, ["axc", "a-c"], ["abd", "", None, 1.5])
     c["str-choice"] = ({"k": "Str", "o": {"choices": ["x", "y"]}}, ["x", "y"], ["z", True])
-    c["int09"] = ({"k": "Int", "o": {"min": 0, "max": 9, "default": 4}}, [1, "2", F(3.0)], [10, "x", True, -1, [1]])
+    c["int09"] = ({"k": "Int", "o": {"min": 0, "max": 9, "default": 4}}, [1, "2", F(3.0), 0], [10, "x", True, -1, [1]])
     c["int-req"] = ({"k": "Int", "o": {"required": True, "default": 5}}, [7, "8"], [None, "1.5", D()])
     c["float"] = ({"k": "Float", "o": {"min": -1, "max": 1}}, [F(0.5), "1", 0], [2, F("nan"), "x", False])
     c["port"] = ({"k": "Port", "o": {"default": 8080}}, [80, "443"], [0, 70000, "http"])
-    c["bool"] = ({"k": "Bool", "o": {"default": False}}, [True, "off", 1], ["maybe", [], D()])
+    c["bool"] = ({"k": "Bool", "o": {"default": False}}, [True, "off", 1, 0], ["maybe", [], D()])
+    c["bool-t"] = ({"k": "Bool", "o": {"default": True}}, [False, "yes", F(0.0)], ["maybe"])
+    c["int-dflt-nonzero"] = ({"k": "Int", "o": {"default": 7}}, [0, "0", 3], ["x"])
+    c["str-dflt"] = ({"k": "Str", "o": {"default": "nonempty"}}, ["", "v"], [5])
     c["ipv4"] = ({"k": "IPv4"}, ["10.0.0.1", "192.168.0.1"], ["10.0.0.256", "01.2.3.4", 5])
     c["net"] = ({"k": "Net", "o": {"min_prefix_len": 8, "max_prefix_len": 24}}, ["10.0.0.0/8", "192.168.1.0/24"],
                 ["10.0.0.1/8", "10.0.0.0/25", "0.0.0.0/0", 8])
@@ -49,12 +52,12 @@ def catalogue():
     c["appmode"] = ({"k": "AppMode", "o": {"default": "production", "create_helpers": False}}, ["development", " PRODUCTION "], ["x", 5])
     c["any"] = ({"k": "Any"}, [1, "a", [1, D(("k", 2))]], [])
     c["list-int"] = ({"k": "List", "item": {"k": "Int", "o": {"min": 0, "max": 9}}, "o": {"default": [1]}},
-                     [[2], [1, "2"], T(3)], [[1, "x"], "12", [10], 5, D()])
+                     [[2], [1, "2"], T(3), [], [0]], [[1, "x"], "12", [10], 5, D()])
     c["list-str-req"] = ({"k": "List", "item": {"k": "Str", "o": {"transform_strip": True}}, "o": {"required": True, "default": ["a"]}},
                          [["b"], [" c "]], [[], None, [5], "ab"])
     c["list-any"] = ({"k": "List"}, [[1, "a"], []], ["notalist", 5])
     c["dict-typed"] = ({"k": "Dict", "key": {"k": "Str", "o": {"transform_strip": True}}, "val": {"k": "Int", "o": {"min": 0, "max": 9}},
-                        "o": {"default": D(("d", 1))}}, [D(("k", 1)), D((" K ", "2"))], [D(("k", "x")), [1], D(("k", 10)), "k"])
+                        "o": {"default": D(("d", 1))}}, [D(("k", 1)), D((" K ", "2")), D(), D(("z", 0))], [D(("k", "x")), [1], D(("k", 10)), "k"])
     c["dict-any"] = ({"k": "Dict"}, [D(("k", 1)), D()], [[1], "x"])
     c["list-int-cd"] = ({"k": "List", "item": {"k": "Int", "o": {"min": 0, "max": 9}}, "o": {"default": [1, 2], "default_callable": True}},
                         [[2], [1, "2"]], [[1, "x"], 5])
@@ -93,7 +96,7 @@ def catalogue():
 
 def quick_leaves():
     return ["str-norm", "str-regex-req", "int09", "int-req", "bool", "net", "bytes", "challenge", "list-int", "list-str-req",
-            "dict-typed", "any", "float", "host", "str-req-nodflt", "str-strip-case-min", "str-upper-max", "list-int-v", "int-even", "dict-typed-v"]
+            "dict-typed", "any", "float", "host", "str-req-nodflt", "str-strip-case-min", "str-upper-max", "list-int-v", "int-even", "dict-typed-v", "bool-t", "int-dflt-nonzero", "str-dflt"]
 
 
 # ---------------------------------------------------------------------------------------------
